@@ -448,7 +448,39 @@ func genC20(r *Rng) (string, []PQuery, []string) {
 	a, b, d := c(), c(), c()
 	n := 2 + r.Intn(4)
 	for i := 0; i < n; i++ {
-		switch r.Intn(14) {
+		switch r.Intn(18) {
+		case 14, 15, 16:
+			// the full column list of the table, in table order and under the table's names, some nullable
+			// columns wrapped in COALESCE: same names as the table, different nullability
+			lit := map[string]string{"bigint": "0", "int": "0", "text": "''", "boolean": "false", "text[]": "'{}'", "timestamptz": "now()", "double precision": "0"}
+			var items []string
+			wrapped := false
+			for _, cc := range cols {
+				if !cc.NotNull && r.Chance(60) {
+					if r.Bool() {
+						items = append(items, fmt.Sprintf("coalesce(%s, %s) AS %s", cc.Name, lit[cc.Type], cc.Name))
+					} else {
+						items = append(items, fmt.Sprintf("coalesce(%s, %s)", cc.Name, lit[cc.Type]))
+					}
+					wrapped = true
+				} else {
+					items = append(items, cc.Name)
+				}
+			}
+			tag := "full-list"
+			if wrapped {
+				tag = "full-list-coalesce"
+			}
+			switch r.Intn(3) {
+			case 0:
+				add(tag, ":many", "SELECT "+strings.Join(items, ", ")+" FROM items ORDER BY id")
+			case 1:
+				add(tag+"-one", ":one", "SELECT "+strings.Join(items, ", ")+" FROM items WHERE id = $1")
+			default:
+				add(tag+"-returning", ":one", fmt.Sprintf("UPDATE items SET %s = $1 WHERE id = $2 RETURNING %s", a.Name, strings.Join(items, ", ")))
+			}
+		case 17:
+			add("star-returning", ":many", fmt.Sprintf("DELETE FROM items WHERE %s = $1 RETURNING *", a.Name))
 		case 11:
 			// a placeholder passed to function calls, repeated across calls
 			add("func-arg-repeat", ":many", fmt.Sprintf("SELECT id FROM items WHERE lower(%s::text) = lower($1) OR upper(%s::text) = upper($1)", a.Name, b.Name))
